@@ -224,6 +224,8 @@ func c20Seeds() map[int][][]byte {
 	return seeds
 }
 
+var c20UUID = regexp.MustCompile(`[0-9a-f]{8}-[0-9a-f]{4}-[0-9a-f]{4}-[0-9a-f]{4}-[0-9a-f]{12}`)
+
 func C20(rep *ev.Reporter, tier string) {
 	bud := NewBudget(150 * time.Second)
 	nSeeds := 1
@@ -290,6 +292,31 @@ func C20(rep *ev.Reporter, tier string) {
 						m := append([]byte{}, seed...)
 						binary.LittleEndian.PutUint64(m[off:], v)
 						add(l, "grb-field", m)
+					}
+				}
+			}
+			if l == c20GRB {
+				// node references are AstID strings (uuid text): every occurrence replaced by every OTHER id of the
+				// stream (same length, so the stream stays well-formed): dangling, duplicated and CYCLIC references
+				// (a node referring to itself or to an ancestor)
+				occ := c20UUID.FindAllIndex(seed, -1)
+				ids := map[string]bool{}
+				var idList []string
+				for _, o := range occ {
+					id := string(seed[o[0]:o[1]])
+					if !ids[id] {
+						ids[id] = true
+						idList = append(idList, id)
+					}
+				}
+				for _, o := range occ {
+					for _, id := range idList {
+						if id == string(seed[o[0]:o[1]]) {
+							continue
+						}
+						m := append([]byte{}, seed...)
+						copy(m[o[0]:], id)
+						add(l, "grb-reference-substitution", m)
 					}
 				}
 			}
@@ -488,7 +515,7 @@ func C20(rep *ev.Reporter, tier string) {
 		rep.Exhaustive = false
 		rep.Coverage["caps_hit"] = fmt.Sprintf("time budget: %d of %d inputs run", ran, total)
 	}
-	rep.Coverage["rule"] = "four loaders (GRL text via the builder, JSON rule via JSONResource+builder, JSON fact via DataContext.AddJSON, binary stream via LoadKnowledgeBaseFromReader), bounded-exhaustive input spaces, no sampling: every byte string of length <= 2 and every length-3 string over a 24-byte structural alphabet; for each valid seed every single-point mutation (every bit flip, every byte set to 00/7f/80/ff, truncation at every offset), every field start of a binary seed (boundaries from a tracing writer) overwritten with 13 boundary values, splices of seed pairs, boundary numbers in every numeric position, nesting depth 10..2000; for the JSON loaders every value of a seed (at every path) replaced by each of 11 alien values (null, true, numbers, empty and null-holding containers, 1e999) and every token string of length <= 4 over a 13-token JSON alphabet. Each input runs in a child process under RLIMIT_AS (ulimit -v 4 GiB): the worker must survive (no escaped panic, no runtime abort), return a value or an error, allocate at most 8 MiB + 2048 bytes per input byte (runtime.MemStats.TotalAlloc delta) and finish within the hang horizon. Every input is non-trivial (it exercises a loader end to end)."
+	rep.Coverage["rule"] = "four loaders (GRL text via the builder, JSON rule via JSONResource+builder, JSON fact via DataContext.AddJSON, binary stream via LoadKnowledgeBaseFromReader), bounded-exhaustive input spaces, no sampling: every byte string of length <= 2 and every length-3 string over a 24-byte structural alphabet; for each valid seed every single-point mutation (every bit flip, every byte set to 00/7f/80/ff, truncation at every offset), every field start of a binary seed (boundaries from a tracing writer) overwritten with 13 boundary values, every node reference (AstID text) of a binary seed replaced by every other id of the stream (dangling, duplicated and cyclic references), splices of seed pairs, boundary numbers in every numeric position, nesting depth 10..2000; for the JSON loaders every value of a seed (at every path) replaced by each of 11 alien values (null, true, numbers, empty and null-holding containers, 1e999) and every token string of length <= 4 over a 13-token JSON alphabet. Each input runs in a child process under RLIMIT_AS (ulimit -v 4 GiB): the worker must survive (no escaped panic, no runtime abort), return a value or an error, allocate at most 8 MiB + 2048 bytes per input byte (runtime.MemStats.TotalAlloc delta) and finish within the hang horizon. Every input is non-trivial (it exercises a loader end to end)."
 	rep.Assumptions = append(rep.Assumptions, "uniformly random long inputs are sampling and outside this family; hang detection uses a wall clock (30 s for inputs that take microseconds, confirmed twice in isolation)")
 }
 
